@@ -91,7 +91,7 @@ def gen_case(rng, tier, *, semi=False, metrics=None, force_tie_free=False, allow
     if rng.random() < 0.08:
         case["I_onthefly"] = [int(v) for v in rng.integers(0, max(2, n // 2), size=n)]   # identifiers (with repeats) beside a feature metric
     if allow_pre and rng.random() < 0.25:
-        mk = gen.pick(rng, ["M1", "M2", "M3", "M4", "ONES", "MN", "MN", "MB"] + list(extra_kinds)) if not force_tie_free else gen.pick(rng, ["M1", "M2", "MN", "MN", "MN"])
+        mk = gen.pick(rng, ["M1", "M2", "M3", "M4", "ONES", "MN", "MN", "MB", "MZ"] + list(extra_kinds)) if not force_tie_free else gen.pick(rng, ["M1", "M2", "MN", "MN", "MN"])
         extra = int(rng.integers(0, 8))
         N = n + nU + extra
         D = gen.make_matrix(rng, N, mk)
@@ -100,6 +100,8 @@ def gen_case(rng, tier, *, semi=False, metrics=None, force_tie_free=False, allow
             I = rng.choice(allowed, size=n, replace=False)
         else:
             I = rng.choice(N, size=n, replace=False)
+        if not semi and not force_tie_free and rng.random() < 0.12:
+            I = rng.choice(N, size=n, replace=True)        # a with-replacement resample: two nodes may name the same record
         IQ = rng.integers(0, N, size=m)
         case["pre"] = {"D": D.tolist(), "I": [int(i) for i in I], "IQ": [int(i) for i in IQ], "kind": mk}
         case["metric"] = "log_squared_euclidean"
